@@ -342,6 +342,9 @@ func TreeMarshalCopyTree(tr *TreeNode) *TreeMarshal {
 
 // MakeTree creates a tree given an Roster
 func (tm TreeMarshal) MakeTree(ro *Roster) (*Tree, error) {
+	if ro == nil {
+		return nil, xerrors.New("no Roster given")
+	}
 	if !ro.ID.Equal(tm.RosterID) {
 		return nil, xerrors.New("Not correct Roster-Id")
 	}
